@@ -60,6 +60,10 @@ def _mk_body(mod, ctx, res, known_sigs, shrink_cap):
         # the smallest failing case is tracked here, not taken from Hypothesis.
         if state['first_fail'] is not None and time.time() - state['first_fail'] > shrink_cap:
             return
+        # what is checked is exactly what a replay file would hold: the case goes through its JSON form first, so
+        # objects shared between parts of a generated case (aliased rows / nested values) can never make a run
+        # differ from its replay
+        case = jsonx.loads(jsonx.dumps(case))
         try:
             try:
                 info = mod.check(case, ctx)
